@@ -257,6 +257,28 @@ func main() {
 			}
 		}
 	}
+	// EVERY message length 0..maxLen (valid signature + the same signature on the message with its last byte
+	// flipped): internal buffer boundaries of the challenge hash are unknown to the check
+	maxLen := 1100
+	if th {
+		maxLen = 2300
+	}
+	for L := 0; L <= maxLen; L++ {
+		m := make([]byte, L)
+		for i := range m {
+			m[i] = byte(i*31 + L)
+		}
+		d := ds[2+L%2]
+		pk := ref.BIP340PubKey(d)
+		sig, _ := ref.BIP340Sign(d, auxs[2], m)
+		add(pk, m, sig, "valid (every message length)")
+		if L > 0 {
+			m2 := append([]byte{}, m...)
+			m2[L-1] ^= 0x80
+			add(pk, m2, sig, "last message byte flipped (every message length)")
+		}
+	}
+	R.Bound("every_message_length", fmt.Sprintf("0..%d", maxLen))
 	R.Bound("cases", len(cases))
 	R.Bound("message_lengths", "0,1,31,32,33,55,56,63,64,65,100,119,120,128,129,200,300")
 	R.Bound("signature_lengths", "every length 0..130")
